@@ -1,5 +1,5 @@
 (* C08: coherence of the cached topic state with the stored rows.  Definitions only
-   (the proofs are in Sys/TopicCohProofs.v, TopicCohStep.v, TopicCohQuery.v).
+   (the proofs are in Sys/TopicCohC08Proofs.v, TopicCohC08Step.v, TopicCohC08Query.v).
 
    The model of the load path is Topic.load (initTopicGrp + loadSubscribers): the
    cache a (re)load builds from the store.  [coherent x] says that while the topic
